@@ -38,6 +38,7 @@ fn main() {
     "C01" => drive::c01::check(Ctx::new(id, &tier, "exploration"), replay),
     "C02" => drive::c02::check(Ctx::new(id, &tier, "exploration"), replay),
     "C03" => drive::c03::check(Ctx::new(id, &tier, "exploration"), replay),
+    "C04" => drive::c04::check(Ctx::new(id, &tier, "exploration"), replay),
     "C06" => drive::c06::check(Ctx::new(id, &tier, "exploration"), replay),
     "C07" => drive::c07::check(Ctx::new(id, &tier, "exploration"), replay),
     "C09" => drive::c09::check(Ctx::new(id, &tier, "model_checking"), replay),
